@@ -192,14 +192,6 @@ Proof.
 Qed.
 
 (* ------------------------------------------------------------------ the terminal *)
-Definition visible (v : nat) (s : severity) : bool :=
-  match s with
-  | SevError => true
-  | SevWarning => negb (level_lt (level_of v) LevelWarning)
-  | SevInfo => negb (level_lt (level_of v) LevelInfo)
-  | SevIgnore => false
-  end.
-
 Lemma step_shown c r d :
   shown (step c r d) =
   shown r ++ (if negb (json c) && visible (verbosity c) (effective c d) then [(fst d, effective c d)] else []).
@@ -230,3 +222,34 @@ Proof.
       + destruct (visible (verbosity c) (effective c d)); cbn [map]; rewrite <- app_assoc; reflexivity. }
   rewrite P. reflexivity.
 Qed.
+
+(* ------------------------------------------------------------------ witnesses *)
+From Coq Require Strings.String.
+Section Witness.
+Import Coq.Strings.String.
+Local Open Scope string_scope.
+Local Open Scope list_scope.
+
+(* all four severities, an override in each direction, an invalid level, every flag combination *)
+Definition ex_overrides : rule -> option severity :=
+  let r := list_byte_of_string in
+  overrides_of [(r "a/err", r "warning"); (r "b/warn", r "ERROR"); (r "c/info", r "Ignore"); (r "d/x", r "warn")].
+Definition ex_input : lint_input :=
+  let r := list_byte_of_string in
+  {| parse_error_main := false; parse_error_included := false;
+     diags := [(r "a/err", SevError); (r "b/warn", SevWarning); (r "c/info", SevInfo); (r "d/x", SevInfo); (r "e/y", SevError)] |}.
+
+Example ex_all_flags :
+  forall j v, let o := run_lint {| json := j; verbosity := v; overrides := ex_overrides |} ex_input in
+  exit o = 1 /\ summary o = Some (2, 1, 1).
+Proof. intros j v. destruct j; destruct v as [|[|v]]; vm_compute; auto. Qed.
+
+Lemma unrepaired_json_swallows_parse_error :
+  exists c x, parse_error_main x = true /\ exit (run_lint_unrepaired c x) = 0 /\
+              summary (run_lint_unrepaired c x) = Some (0, 0, 0).
+Proof.
+  exists {| json := true; verbosity := 0; overrides := fun _ => None |},
+         {| parse_error_main := true; parse_error_included := false; diags := [] |}.
+  vm_compute. auto.
+Qed.
+End Witness.
